@@ -749,26 +749,66 @@ def param_index_of_origin(prog, ctx, o):
 
 
 def foreign_controls(ctx, bb, allowed, depth=6):
-    """controlling switches of block bb that can drop it: not a loop-exit test of a loop around bb,
-    not a pure error guard (all other edges cannot reach an Ok return), and whose discriminant has
-    a data origin not accepted by `allowed(origin)`.  Returns [(switch block, offending origins)]."""
+    """switches on which the execution of block bb (transitively) depends and that can drop it: not
+    the iteration test of a loop, not a pure error guard (all other edges cannot reach an Ok return),
+    and whose discriminant has a data origin not accepted by `allowed(origin)`.
+    Returns [(switch block, offending origins)]."""
+    ty0 = ctx.body.locals[0]["ty"] if ctx.body.locals else ""
     okb = set(ctx.ok_return_blocks())
+    if "result::Result<" in ty0:
+        okb |= set(ctx.tail_result_calls())
     rets = [b.idx for b in ctx.body.blocks if not b.cleanup and b.term is not None and b.term.k == "return"]
     can_ok = ctx.cfg.backward_reach(okb) if okb else ctx.cfg.backward_reach(set(rets))
-    comp = next((c for c in ctx.cfg.sccs() if len(c) > 1 and bb in c), None)
-    edges_all = ctx.cfg.edges()
     out = []
-    for sbb, edges in ctx.cfg.control_switches(bb):
-        if sbb == bb:
+    seen = set()
+    work = [bb]
+    while work:
+        cur = work.pop()
+        if cur in seen:
             continue
-        if comp is not None and sbb in comp and any(e[0] == sbb and e[1] not in comp for e in edges_all):
-            continue
-        others = [e for e in ctx.cfg.succ[sbb] if e not in edges]
-        if okb and all(e[1] not in can_ok for e in others):
-            continue
-        sw = ctx.body.blocks[sbb].term
-        deps = [o for o in deep_origins(ctx, sw.discr, depth) if o.kind in ("param", "upvar", "call", "const")]
-        bad = [o for o in deps if not allowed(o)]
-        if bad:
-            out.append((sbb, bad))
+        seen.add(cur)
+        for sbb, edges in ctx.cfg.control_switches(cur):
+            if sbb == cur:
+                continue
+            work.append(sbb)
+            if is_iteration_test(ctx, sbb):
+                continue
+            others = [e for e in ctx.cfg.succ[sbb] if e not in edges]
+            if okb and all(e[1] not in can_ok for e in others):
+                continue
+            sw = ctx.body.blocks[sbb].term
+            deps = [o for o in deep_origins(ctx, sw.discr, depth) if o.kind in ("param", "upvar", "call", "const")]
+            bad = [o for o in deps if not allowed(o)]
+            if bad and sbb not in [x[0] for x in out]:
+                out.append((sbb, bad))
     return out
+
+
+def is_iteration_test(ctx, sbb):
+    """the switch in block sbb tests the Option returned by an iterator's next() (the exit test of a
+    `for`/`while let Some(..) = it.next()` loop) — as opposed to a conditional `break`"""
+    blk = ctx.body.blocks[sbb]
+    sw = blk.term
+    if sw is None or sw.k != "switch" or sw.discr.place is None:
+        return False
+    dl = sw.discr.place.local
+    for s_ in blk.stmts:
+        if s_.k == "assign" and s_.rv.k == "discr" and s_.place.local == dl and not s_.place.proj:
+            if s_.rv.j.get("adt") != "core::option::Option":
+                return False
+            work = [s_.rv.place.local]
+            seen = set()
+            while work:
+                src = work.pop()
+                if src in seen or len(seen) > 6:
+                    continue
+                seen.add(src)
+                for (kind, dbb, idx, obj) in ctx.origins.defs.get(src, []):
+                    if kind == "call" and ((obj.resolved or obj.callee or "").endswith("::next")
+                                           or obj.is_call_to("core::iter::traits::iterator::Iterator::next")):
+                        return True
+                    if kind == "stmt" and obj.rv.k in ("use", "ref", "copyderef") :
+                        pl = obj.rv.place if obj.rv.place is not None else (obj.rv.ops[0].place if obj.rv.ops else None)
+                        if pl is not None:
+                            work.append(pl.local)
+    return False
